@@ -139,8 +139,8 @@ pub fn run(ctx: &Ctx) -> CheckOutput {
     let mut jobs: Vec<Job> = vec![];
     for spec in specs(quick) {
         let n = spec.n.max(1);
-        let dz = (n + 6).min(if quick { 8 } else { 10 });
-        let dd = if quick { 5 } else { 7 };
+        let dz = (n + 6).min(if quick { 8 } else { 11 });
+        let dd = if quick { 5 } else { 8 };
         for (alpha, depth) in [(Z3.to_vec(), dz), (D4.to_vec(), dd)] {
             {
                 let (spec, alpha) = (spec.clone(), alpha.clone());
